@@ -19,6 +19,10 @@ keeps to them:
      unquoted / "..." / '...' with line breaks, blank lines, `<`, `>` and Markdown inside quoted values, line breaks between
      attributes; end tag `</tag>` or `</tag >`; content: text lines, blank and whitespace-only lines, nested block elements
      (balanced, depth <= 3), inline elements, void `<hr>` / `<br>`, comments (which may contain tags), entities, bare `&` `<` `>`;
+   * as CONTENT of an element, at every nesting depth: PIs, CDATA sections, DOCTYPE declarations and comments whose text contains start
+     and end tags of the ENCLOSING elements and of other block elements (`<div>\n<?php echo "</div>"; ?>\n*x*\n</div>`,
+     `<![CDATA[ a </div> b ]]>`); a PI / CDATA / declaration is consumed as one unit only when it STARTS a line (<= 3 spaces) -- it is
+     generated only there (a comment is a unit anywhere); a declaration ends at its first `>`, so it carries exactly one tag;
    * `<script>` / `<style>` with tag-free content; void `<hr ...>` / `<hr/>`;
    * comments `<!-- ... -->` (multi-line, blank lines inside, close spelt exactly `-->`), PIs `<? ... ?>`, `<!DOCTYPE ...>` in any
      letter case, `<![CDATA[ ... ]]>`.
@@ -51,6 +55,11 @@ into ordinary text of paragraphs, ATX / Setext headings, tight / loose list item
 and link text.  Not inside code, link destinations, titles or image alt text, not right after a backslash, not at the very start of
 a line (a comment there is a raw BLOCK); attribute values of inline tags contain no backtick, bracket, parenthesis, backslash or `!`
 (link / code / escape syntax is recognised BEFORE inline HTML by design of the pattern order, so such a value is not protected).
+White space inside a start tag is a regular shape: one or several spaces, a line break, a line break plus up to 3 spaces between the tag
+name and the first attribute and between attributes (`<a\nhref="u">`, `<span\n  class="c">`, `<img\nsrc="s"\n/>`), a line break inside a
+quoted value, spaces before `>`; flattened to one line in headings.  Not generated (the unchanged tree does not pass them through, by
+block precedence / normalisation): a line break directly before the closing `>` (a `>` at a line start is a quote marker), 4 spaces of
+continuation indentation inside list items (structural indentation), tabs.
 Required: converting the document with the raw piece T and with the inert placebo word `§QZ§` in its place gives outputs that
 differ exactly by that substitution:  out(T) == out(placebo).replace('§QZ§', T).  (The surrounding text is processed as if the
 piece were an opaque word; the piece itself is unchanged.)
@@ -233,18 +242,23 @@ def inline_piece(rng):
     if k < 0.45:
         t = rng.choice(rawhtml.INLINE_TAGS[:-1])
         return 'endtag', '</' + t + rng.choice(['', '', ' ']) + '>'
-    if k < 0.55: return 'void', rng.choice(['<br>', '<br/>', '<br />', '<img src="s.png" alt="*a*">', '<img src=s />', '<wbr>'])
+    if k < 0.55: return 'void', rng.choice(['<br>', '<br/>', '<br />', '<img src="s.png" alt="*a*">', '<img src=s />', '<wbr>', '<br\n/>', '<img\nsrc="s.png"\n  alt="*a*">',
+                                            '<img   src=s\n/>', '<img\n  src="s"  alt="a" />'])
     if k < 0.62: return 'comment', rng.choice(['<!-- c -->', '<!--c-->', '<!-- *x* -->'])
     t = rng.choice(rawhtml.INLINE_TAGS[:-1])
     a = ''
     for _ in range(rng.choice([0, 0, 1, 1, 2])):
-        at = rawhtml.attr(rng).replace('\n', ' ')
+        at = rawhtml.attr(rng).replace('\n\n', '\n')            # a line break inside a quoted value is kept (a blank line would end the paragraph)
         # link / code / escape syntax inside an attribute value of an INLINE tag is processed before the tag is recognised
         # (pattern order: backtick, escape, links, then inline HTML) -- not "ordinary text", excluded
         at = re.sub(r'[`\[\]()\\!]', '', at)
         if rng.random() < 0.97: at = at.replace('>', ')').replace('<', '(')        # F-C04-5: mostly avoided
-        a += rng.choice([' ', ' ', '  ']) + at
-    return 'starttag', '<' + (t if rng.random() < 0.9 else t.upper()) + a + rng.choice(['', '', ' ']) + '>'
+        # white space between tag name and attributes / between attributes: one or several spaces, a line break, a line break plus
+        # indentation (`<a\nhref="u">`, `<span\n  class="c">`) -- all passed through unchanged by the unchanged tree.  NOT before the closing
+        # `>`: a `>` at the start of a line is a block-quote marker (block precedence); no tab (input normalisation expands it)
+        # (continuation lines indented by at most 3 spaces: 4 spaces inside a list item are the item's structural indentation and are removed)
+        a += rng.choice([' ', ' ', '  ', '   ', '\n', '\n', '\n  ', '\n   ', ' \n']) + at
+    return 'starttag', '<' + (t if rng.random() < 0.9 else t.upper()) + a + rng.choice(['', '', ' ', '  ']) + '>'
 
 
 def gen_inline_case(rng):
@@ -257,6 +271,7 @@ def gen_inline_case(rng):
     wrap = rng.choice(['none'] * 5 + ['em', 'strong', 'em_', 'link', 'em-around'])
     ctx = rng.choice(['para', 'para', 'para2', 'atx', 'setext', 'li', 'li', 'li_loose', 'li_para', 'quote', 'quote_li', 'li_nested'])
     if ctx in ('atx', 'setext') and kind == 'comment' and not pre: pre = 'w'
+    if ctx in ('atx', 'setext'): T = re.sub(r' *\n *', ' ', T)          # headings are one line
     lvl = rng.randint(1, 6)
     marker = rng.choice(['- ', '* ', '+ ', '1. ', '12. '])
     opt = docs.Opt(code=True, html=rng.random() < 0.3)
